@@ -714,6 +714,14 @@ impl<'a, T: AsRef<[u8]> + ?Sized> Frame<&'a T> {
 }
 
 impl<T: AsRef<[u8]> + AsMut<[u8]>> Frame<T> {
+    /// Zero the frame control field (frame type Beacon, no flags, both addressing modes Absent,
+    /// frame version 2003, all reserved bits clear).
+    #[inline]
+    fn clear_frame_control(&mut self) {
+        let data = &mut self.buffer.as_mut()[field::FRAMECONTROL];
+        data.copy_from_slice(&[0, 0]);
+    }
+
     /// Set the frame type.
     #[inline]
     pub fn set_frame_type(&mut self, frame_type: FrameType) {
@@ -970,6 +978,10 @@ impl Repr {
 
     /// Emit a high-level representation into an IEEE802.15.4 frame.
     pub fn emit<T: AsRef<[u8]> + AsMut<[u8]>>(&self, frame: &mut Frame<T>) {
+        // The setters below only touch their own bits: start from a zeroed frame control field
+        // so that the reserved bits, sequence number suppression, IE present and the addressing
+        // mode of an address that is `None` do not depend on the old buffer contents.
+        frame.clear_frame_control();
         frame.set_frame_type(self.frame_type);
         frame.set_security_enabled(self.security_enabled);
         frame.set_frame_pending(self.frame_pending);
